@@ -119,21 +119,21 @@ PROPERTIES = {
                  "add_event in the past under catch_unwind on marked events, the clock writer is observed through hook H4 and the event set is walked "
                  "through H6; every third program is additionally driven in random n-event / until-time steps, and after every step add_event(sim_time() - 1 ns) "
                  "is attempted on the paused runtime (half of these stepped runs also add events from outside while paused, at / after the reported time). Oracle: now == scheduled, non-decreasing, each event exactly once, every add at/after now accepted, every "
-                 "add before now / before the start time / before the time reported while paused rejected and never dispatched, end time = last event. Non-trivial = program with >= 3 events that ran clean; "
+                 "add before now / before the start time / before the time reported while paused rejected and never dispatched, end time = last event. The same driver also runs against des built without the cqueue feature (BinaryHeap event set; stage heap-backend, both tiers). Non-trivial = program with >= 3 events that ran clean; "
                  "distinct = hash of the program."),
         "assumptions": ["the handlers of the monitor application are the observation boundary; H4 observes every SimTime::set_now",
                         "start times are restricted to those the calendar queue can reach by scanning <= 1e6 buckets from zero (a larger start time "
                         "makes the first fetch scan for hours; that is a performance matter outside the property)"],
         "stages": [
             native("runtime", "desmon", "c02", tiers=QT, timeout={"quick": 900, "thorough": 5400}),
-            native("heap-backend", "desmon", "c02", tiers=T, features="heap", timeout={"thorough": 5400}, counter_prefix="heap_",
-                   args={"thorough": ["cases=400000"]}),
+            native("heap-backend", "desmon", "c02", tiers=QT, features="heap", timeout={"quick": 900, "thorough": 5400}, counter_prefix="heap_",
+                   args={"quick": ["cases=16000"], "thorough": ["cases=400000"]}),
         ],
         "floor": {
             "quick": {"events_handled": 1000000, "past_adds_rejected_in_handlers": 20000, "programs_with_nonzero_start": 50000,
                       "pre_run_adds_before_start_rejected": 50000, "clock_writes_observed": 1000000, "event_set_walks": 100000,
                       "stepped_runs": 20000, "paused_adds_below_reported_time_rejected": 50000,
-                      "programs_starting_beyond_10_7_seconds": 2000},
+                      "programs_starting_beyond_10_7_seconds": 2000, "heap_events_handled": 200000},
             "thorough": {"events_handled": 50000000, "past_adds_rejected_in_handlers": 1000000, "programs_with_nonzero_start": 1000000,
                          "pre_run_adds_before_start_rejected": 1000000, "clock_writes_observed": 50000000, "heap_events_handled": 1000000,
                          "programs_starting_beyond_10_7_seconds": 30000},
@@ -145,17 +145,17 @@ PROPERTIES = {
                  "programs <= 7 events EVERY composition into <= 3 n-event steps and every until-cut below / at / above every timestamp (single, pairs, mixed "
                  "with n-steps), for larger ones random schedules, with and without external add_event while paused (at sim_time, between, at and after the "
                  "next event). Oracle: per-step counts (exactly n or all; exactly those <= t), paused sim_time / remaining / dispatched against an exact "
-                 "reference model, concatenated trace == uninterrupted trace == model trace. Non-trivial = a step that dispatched something and left "
+                 "reference model, concatenated trace == uninterrupted trace == model trace. The same driver also runs against des built without the cqueue feature (BinaryHeap event set; stage heap-backend, both tiers; the order among equal timestamps is then taken from the observed run). Non-trivial = a step that dispatched something and left "
                  "something pending; distinct = hash of (program, schedule)."),
         "exhaustive_part": "all n-event compositions (<= 3 cuts) and all until-cuts around every timestamp for programs of <= 7 events",
         "assumptions": ["dispatch_events_until is only called with times >= the paused time"],
         "stages": [
             native("runtime", "desmon", "c10", tiers=QT, timeout={"quick": 900, "thorough": 5400}),
-            native("heap-backend", "desmon", "c10", tiers=T, features="heap", timeout={"thorough": 5400}, counter_prefix="heap_",
-                   args={"thorough": ["cases=100000"]}),
+            native("heap-backend", "desmon", "c10", tiers=QT, features="heap", timeout={"quick": 900, "thorough": 5400}, counter_prefix="heap_",
+                   args={"quick": ["cases=6000"], "thorough": ["cases=100000"]}),
         ],
         "floor": {
-            "quick": {"stepped_executions": 500000, "cuts_inside_a_tie_group": 100000, "external_adds_while_paused": 50000,
+            "quick": {"heap_stepped_executions": 100000, "stepped_executions": 500000, "cuts_inside_a_tie_group": 100000, "external_adds_while_paused": 50000,
                       "programs_with_exhaustive_step_schedules": 5000},
             "thorough": {"stepped_executions": 10000000, "cuts_inside_a_tie_group": 2000000, "external_adds_while_paused": 1000000,
                          "programs_with_exhaustive_step_schedules": 100000, "heap_stepped_executions": 1000000},
@@ -167,16 +167,16 @@ PROPERTIES = {
                  "limit (nested And/Or trees, several calls combine with or): for programs <= 30 events EVERY count 0..|E|+2 and every time below / at / "
                  "between / above the timestamps, plus random trees of depth <= 3; every single count / time limit is also applied through the stepping interface (start, one dispatch_n_events / dispatch_events_until, finish); a quarter of the limited runs is additionally driven as start, random n-event / until-time steps (a third of the n-steps drains the event set) with events added from outside while paused, dispatch_all, finish - the configured limit must be back in force after every step (the reference is the model driven through the same steps; what the steps themselves handled stays handled). Oracle: independent limit-tree evaluator gives the stop index p; handled "
                  "== E[0..p), event_count == p, end time == time of E[p-1] (start time if p = 0), remaining == multiset of (event, timestamp) scheduled by "
-                 "the prefix and not handled. Non-trivial = run stopped with events pending after dispatching at least one; distinct = hash of (program, limit)."),
+                 "the prefix and not handled. The same driver also runs against des built without the cqueue feature (stage heap-backend, both tiers). Non-trivial = run stopped with events pending after dispatching at least one; distinct = hash of (program, limit)."),
         "exhaustive_part": "every event-count limit and every time limit around every timestamp for programs of <= 30 events",
         "assumptions": [],
         "stages": [
             native("runtime", "desmon", "c11", tiers=QT, timeout={"quick": 900, "thorough": 5400}),
-            native("heap-backend", "desmon", "c11", tiers=T, features="heap", timeout={"thorough": 5400}, counter_prefix="heap_",
-                   args={"thorough": ["cases=100000"]}),
+            native("heap-backend", "desmon", "c11", tiers=QT, features="heap", timeout={"quick": 900, "thorough": 5400}, counter_prefix="heap_",
+                   args={"quick": ["cases=8000"], "thorough": ["cases=100000"]}),
         ],
         "floor": {
-            "quick": {"limited_executions": 300000, "runs_stopped_with_events_pending": 200000, "stops_inside_a_tie_group": 20000,
+            "quick": {"heap_limited_executions": 100000, "limited_executions": 300000, "runs_stopped_with_events_pending": 200000, "stops_inside_a_tie_group": 20000,
                       "combined_limits": 50000, "programs_with_exhaustive_limits": 5000, "remaining_events_returned": 500000,
                       "limits_kept_across_steps_and_external_adds": 100000, "limited_runs_with_an_add_after_a_step_drained_the_event_set": 20000},
             "thorough": {"limited_executions": 6000000, "runs_stopped_with_events_pending": 4000000, "stops_inside_a_tie_group": 400000,
@@ -188,7 +188,7 @@ PROPERTIES = {
         "level": "exploration",
         "rule": ("two-module rig tx.out -> rx.in over one channel: bitrate {0,1,3,8,1e3,8e3,1e6,1e9,1e12,1e13,123456789} x latency {0,3ns,1ms,1s} x jitter {0,1ms,1s} x "
                  "policy {Drop, Queue(None), Queue(0), Queue(L) with L at / one below / one above sums of the message lengths in play}; offers in bursts of 1..50 "
-                 "inside one handler with gaps below / at / above the transmission time, several busy periods, body sizes {0..65000}, the connect call issued from either end; every 100 cases a second link created at run time inside a handler from the channel of the first link while that is transmitting (the new direction must be idle and deliver after exactly tx + latency); plus an enumerated "
+                 "inside one handler with gaps below / at / above the transmission time, several busy periods, body sizes {0..65000}, the connect call issued from either end; every 100 cases a second link created at run time inside a handler from the channel of the first link while that is transmitting (the new direction must be idle and deliver after exactly tx + latency); two thirds of the cases attach a probe to the sending direction at start-up and half of those replace it from the handler before every second burst and after the first message of every burst, i.e. while the channel transmits and holds queued messages - the probes together must see every transmission exactly once, at the instant it starts, and replacing one must change nothing else; plus an enumerated "
                  "boundary grid (limit = k*len-1, k*len, k*len+1 x burst 1..5). Every offer logs the channel's busy flag, finish time and queue "
                  "(hook: Channel::verif_state) before and after; every arrival is logged by the receiver. Oracle: reference automaton with exact integer "
                  "arithmetic (only size/bitrate combinations whose rounding to ns is unambiguous are generated): busy flag, finish time and queue length at "
@@ -203,9 +203,11 @@ PROPERTIES = {
         "floor": {
             "quick": {"offers": 1000000, "deliveries_checked": 500000, "drops_predicted": 300000, "messages_queued": 200000, "busy_periods": 300000,
                       "offers_at_the_busy_boundary_resolved_by_flag": 20000, "zero_length_transmissions": 50000, "cases_with_jitter": 20000,
-                      "boundary_grid_cases": 400},
+                      "boundary_grid_cases": 400, "transmissions_seen_by_a_probe": 500000,
+                      "cases_with_the_probe_replaced_while_the_channel_is_in_use": 15000},
             "thorough": {"offers": 20000000, "deliveries_checked": 10000000, "drops_predicted": 6000000, "messages_queued": 4000000, "busy_periods": 6000000,
-                         "zero_length_transmissions": 1000000, "cases_with_jitter": 400000, "boundary_grid_cases": 400},
+                         "zero_length_transmissions": 1000000, "cases_with_jitter": 400000, "boundary_grid_cases": 400,
+                         "transmissions_seen_by_a_probe": 8000000, "cases_with_the_probe_replaced_while_the_channel_is_in_use": 300000},
         },
     },
     "C08": {
@@ -256,7 +258,7 @@ PROPERTIES = {
         "level": "exploration",
         "rule": ("1..4 async modules x 1..8 tasks x up to 30 steps of generated timer scripts: sleep, sleep_until (also in the past), timeout over "
                  "{sleep, yield_now, pending, far-future sleep}, biased select! of two sleeps (one possibly far future), poll-once-then-drop, pinned sleep "
-                 "with reset (before its deadline, and after the deadline was reached while the task waited for another timer), interval sections with Burst / Delay / Skip and late ticks, recv from a channel fed at generated instants; durations from a small "
+                 "with reset (before its deadline, and after the deadline was reached while the task waited for another timer), interval sections with Burst / Delay / Skip and late ticks (a third of them created with interval_at with the first tick due 50 / 10 ms ago, now, or in 10 / 100 ms; Interval::reset between ticks), recv from a channel fed at generated instants; a third of the scripts goes through the other entry points (sleep_until(now + d), timeout_at, interval_at(now, p)) and the accessors deadline() / is_elapsed() / period() / missed_tick_behavior() must agree with what was asked for; half of the cases add up to 6 unrelated self messages per module, three quarters of them arriving exactly at a timer deadline of that module and half of them swallowed by a processing element (the handler never runs in that event) - they must not move any completion; durations from a small "
                  "set so that deadlines collide across tasks and cancelled timers leave empty slots in front of live ones. Every step logs (module, task, "
                  "step, SimTime::now(), outcome); oracle = reference interpreter in virtual time: completion time equal (never earlier, never later), outcome "
                  "equal, every step completes, run() Ok, run does not end before the last deadline; hook H5: after every module event a waiting timer has a "
@@ -273,8 +275,12 @@ PROPERTIES = {
         ],
         "floor": {
             "quick": {"timer_steps_checked": 2000000, "module_events_with_empty_slots_in_front_of_live_timers": 100000, "steps_timeout": 100000,
-                      "steps_select": 100000, "steps_reset": 50000, "steps_poll_then_drop": 50000, "steps_interval_tick": 300000, "steps_recv": 100000},
-            "thorough": {"timer_steps_checked": 40000000, "module_events_with_empty_slots_in_front_of_live_timers": 2000000, "miri_timer_steps_checked": 200},
+                      "steps_select": 100000, "steps_reset": 50000, "steps_poll_then_drop": 50000, "steps_interval_tick": 300000, "steps_recv": 100000,
+                      "steps_interval_at": 40000, "steps_interval_reset": 60000, "steps_through_sleep_until_timeout_at_interval_at": 500000,
+                      "unrelated_messages_arriving_at_a_timer_deadline": 30000, "unrelated_messages_swallowed_by_a_processing_element": 15000},
+            "thorough": {"timer_steps_checked": 40000000, "module_events_with_empty_slots_in_front_of_live_timers": 2000000, "miri_timer_steps_checked": 200,
+                         "steps_interval_at": 800000, "steps_interval_reset": 1200000, "steps_through_sleep_until_timeout_at_interval_at": 10000000,
+                         "unrelated_messages_arriving_at_a_timer_deadline": 600000, "unrelated_messages_swallowed_by_a_processing_element": 300000},
         },
     },
     "C06": {
@@ -283,7 +289,7 @@ PROPERTIES = {
                  "spawn bursts of N tasks that yield k times and optionally sleep to a common deadline (timer wake-up of N tasks at once), notify_waiters "
                  "broadcasts to N waiting tasks, wake chains of depth <= 2000 through oneshot / mpsc / semaphore / join handles (a third of them alternating between tokio::spawn and spawn_local tasks), one task draining up to 10000 "
                  "channel items in one instant (tokio coop budget), N tasks woken by a processing element that consumes the trigger message (the handler never runs "
-                 "in that event), a handler that fires its trigger and requests the shutdown of its module in the same event, 1..8 tasks awaiting timeout(1 ms / 1 s / 7 s, oneshot) that a sibling task answers in the same event (the timeout's timer is armed and disarmed within one instant) and then sleeping 1 ms..10 s; N in {1,2,60,61,62,122,123,200,1000,5000}; each with tokio::spawn and with spawn_local "
+                 "in that event), a handler that fires its trigger and requests the shutdown of its module in the same event, 1..8 tasks awaiting timeout(1 ms / 1 s / 7 s, oneshot) that a sibling task answers in the same event (the timeout's timer is armed and disarmed within one instant) and then sleeping 1 ms..10 s, 1..6 tasks holding an idle timer (pinned sleep) that is re-armed 1..3 times within one event to the deadline it is already registered for, and (one trigger in 300) a single task that stays runnable for 300000..600000 polls within one instant (the executor then needs a noticeable amount of wall-clock time; only virtual time may decide when the task continues); N in {1,2,60,61,62,122,123,200,1000,5000}; each with tokio::spawn and with spawn_local "
                  "(every tenth case: spawn_local work needing more than one LocalSet turn of 61 polls). Every task logs SimTime::now() after each await; the "
                  "instant its condition became true is known by construction; a later sentinel event of the module makes stranded work visible. Oracle: "
                  "logged now == enabling instant for every wake-up, every task finished at the end. Non-trivial = case with an instant needing > 61 polls; "
@@ -297,10 +303,12 @@ PROPERTIES = {
                       "scenarios_with_spawn_local": 1500, "spawn_local_over_budget_cases": 300, "scenarios_wake_chain": 1500,
                       "scenarios_notify_broadcast": 500, "scenarios_channel_drain": 500, "scenarios_spawn_burst": 1500,
                       "scenarios_message_consumed_by_processing_element": 500,
-                      "scenarios_timeout_answered_within_the_instant_then_sleep": 800},
+                      "scenarios_timeout_answered_within_the_instant_then_sleep": 800,
+                      "scenarios_sleep_rearmed_to_its_own_deadline": 700, "scenarios_one_task_runnable_for_over_300000_polls": 10},
             "thorough": {"wakeups_observed": 100000000, "instants_needing_more_than_61_polls": 60000, "instants_needing_more_than_122_polls": 40000,
                          "scenarios_with_spawn_local": 30000, "spawn_local_over_budget_cases": 6000,
-                         "scenarios_timeout_answered_within_the_instant_then_sleep": 15000},
+                         "scenarios_timeout_answered_within_the_instant_then_sleep": 15000,
+                         "scenarios_sleep_rearmed_to_its_own_deadline": 12000, "scenarios_one_task_runnable_for_over_300000_polls": 200},
         },
     },
     "C09": {
